@@ -246,6 +246,44 @@ def _check(pid, P, tier, seed, bdir, ev):
         extraction[uname] = dict(rules=meta['rules'], functions_total=len(meta['functions']),
                                  dropped_items=len(meta['dropped']), unit_lines=text.count('\n'), unit_sha256=hashlib.sha256(text.encode()).hexdigest()[:16],
                                  trusted_scan=scan_trusted(text))
+        # thorough tier: vacuity guards -- with `assert(false)` injected every serving function / lemma must FAIL (a contradictory
+        # precondition, an assume that excludes everything or a body that is never checked would let it pass)
+        if tier == 'thorough' and not failures:
+            vac = {}
+            for kind in ('canary', 'lemma_canary'):
+                c2 = load_unit_cfg(uname)
+                c2['crate_name'] = 'unit'
+                c2[kind] = True
+                t2, m2 = EX.build_unit(c2)
+                p2 = os.path.join(os.path.dirname(unit_path), kind, 'unit.rs')
+                os.makedirs(os.path.dirname(p2), exist_ok=True)
+                open(p2, 'w').write(t2)
+                r2 = VR.run_verus(p2, os.path.join(os.path.dirname(p2), 'vlog'), timeout=P.get('timeout', 1800))
+                cmds.append('cd <build>/%s && %s   # vacuity guard' % (kind, r2.cmd))
+                survivors = []
+                n2 = 0
+                if r2.json is None:
+                    undecided.append('vacuity guard %s of unit %s did not run' % (kind, uname))
+                    continue
+                if kind == 'canary':
+                    for f in m2['functions']:
+                        if f['key'] in serving and f['mode'] == 'verified':
+                            n2 += 1
+                            st2 = r2.fn_status.get(VR.resolve_name(r2, f['verus_name']))
+                            if st2 is None or st2['success']:
+                                survivors.append(VR.short(f['key']))
+                else:
+                    for nm in re.findall(r'/\*@LCANARY (\w+)\*/', t2):
+                        hits = [(k, st2) for k, st2 in r2.fn_status.items() if k.split('::')[-1] == nm]
+                        if not any(k in lemma_serving for k, _ in hits) and hits:
+                            continue
+                        n2 += 1
+                        if not hits or any(st2['success'] for k, st2 in hits):
+                            survivors.append(nm)
+                vac[kind] = dict(checked=n2, survivors=survivors)
+                if survivors:
+                    undecided.append('vacuity guard (%s) of unit %s: these verify even with assert(false) injected: %s' % (kind, uname, ', '.join(survivors[:8])))
+            cov.setdefault('vacuity_guards', {})[uname] = vac
         # samples: the named obligations of the serving functions
         for (l, key, kind, name, n) in clauses:
             if key in serving and len(samples) < 40:
